@@ -22,13 +22,25 @@ import (
 
 var Cancelled = errors.New("transaction cancelled")
 
+// What the CONNECT transaction is waiting for. Packets of the connect exchange
+// which come in a wrong phase are ignored.
+type connectPhase int
+
+const (
+	connectCreated connectPhase = iota
+	awaitingAuth
+	awaitingWillTopic
+	awaitingWillMsg
+	awaitingConnack
+)
+
 type connectTransaction struct {
 	*transactions.TimedTransaction
-	handler       *handler1
-	log           util.Logger
-	authEnabled   bool
-	mqConnect     *mqPkts.ConnectPacket
-	authenticated bool
+	handler     *handler1
+	log         util.Logger
+	authEnabled bool
+	mqConnect   *mqPkts.ConnectPacket
+	phase       connectPhase
 }
 
 func newConnectTransaction(ctx context.Context, h *handler1, authEnabled bool, mqConnect *mqPkts.ConnectPacket) *connectTransaction {
@@ -69,18 +81,36 @@ func (t *connectTransaction) Start(ctx context.Context) error {
 
 	if t.authEnabled {
 		t.log.Debug("Waiting for AUTH packet.")
+		t.phase = awaitingAuth
 		return nil
 	}
 
+	return t.continueAfterAuth()
+}
+
+// Ask for the will, if any, or send MQTT connect.
+func (t *connectTransaction) continueAfterAuth() error {
 	if t.mqConnect.WillFlag {
 		// Continue with WILLTOPICREQ.
+		t.phase = awaitingWillTopic
 		return t.handler.snSend(snPkts1.NewWillTopicReq())
 	}
 
+	// All information successfully gathered - send MQTT connect.
+	return t.sendMqttConnect()
+}
+
+func (t *connectTransaction) sendMqttConnect() error {
+	t.phase = awaitingConnack
 	return t.handler.mqttSend(t.mqConnect)
 }
 
 func (t *connectTransaction) Auth(snPkt *snPkts1.Auth) error {
+	if t.phase != awaitingAuth {
+		t.log.Debug("Unexpected packet in phase %d: %v", t.phase, snPkt)
+		return nil
+	}
+
 	// Extract username and password from PLAIN data.
 	if snPkt.Method == snPkts1.AUTH_PLAIN {
 		user, password, err := snPkt.DecodePlain()
@@ -101,29 +131,34 @@ func (t *connectTransaction) Auth(snPkt *snPkts1.Auth) error {
 		return err
 	}
 
-	if t.mqConnect.WillFlag {
-		// Continue with WILLTOPICREQ.
-		return t.handler.snSend(snPkts1.NewWillTopicReq())
-	}
-
-	// All information successfully gathered - send MQTT connect.
-	return t.handler.mqttSend(t.mqConnect)
+	return t.continueAfterAuth()
 }
 
 func (t *connectTransaction) WillTopic(snWillTopic *snPkts1.WillTopic) error {
+	if t.phase != awaitingWillTopic {
+		t.log.Debug("Unexpected packet in phase %d: %v", t.phase, snWillTopic)
+		return nil
+	}
+
 	t.mqConnect.WillQos = snWillTopic.QOS
 	t.mqConnect.WillRetain = snWillTopic.Retain
 	t.mqConnect.WillTopic = snWillTopic.WillTopic
 
 	// Continue with WILLMSGREQ.
+	t.phase = awaitingWillMsg
 	return t.handler.snSend(snPkts1.NewWillMsgReq())
 }
 
 func (t *connectTransaction) WillMsg(snWillMsg *snPkts1.WillMsg) error {
+	if t.phase != awaitingWillMsg {
+		t.log.Debug("Unexpected packet in phase %d: %v", t.phase, snWillMsg)
+		return nil
+	}
+
 	t.mqConnect.WillMessage = snWillMsg.WillMsg
 
 	// All information successfully gathered - send MQTT connect.
-	return t.handler.mqttSend(t.mqConnect)
+	return t.sendMqttConnect()
 }
 
 func (t *connectTransaction) Connack(mqConnack *mqPkts.ConnackPacket) error {
